@@ -209,9 +209,9 @@ def gen_histories(ctx):
     if not ctx.quick:
         allr = ctx.tlc("MC_LspIncr", "MC_LspIncr_all", workers=1, count=False, timeout=1500)
         pool += [("all", r) for r in allr.printed("REPLAY")]
-    sims = [("MC_LspIncr_sim", 11, 600), ("MC_LspIncr_simc", 13, 600)] if ctx.quick else \
-           [("MC_LspIncr_sim", 11, 800), ("MC_LspIncr_sim3", 12, 500), ("MC_LspIncr_simc", 13, 600),
-            ("MC_LspIncr_simc6", 14, 300)]
+    sims = [("MC_LspIncr_sim", 11, 450), ("MC_LspIncr_simc", 13, 450)] if ctx.quick else \
+           [("MC_LspIncr_sim", 11, 500), ("MC_LspIncr_sim3", 12, 350), ("MC_LspIncr_simc", 13, 400),
+            ("MC_LspIncr_simc6", 14, 200)]
     for cfg, seed, num in sims:
         r = ctx.tlc("MC_LspIncr", cfg, workers=1, simulate=num, depth=40, tlc_seed=seed, count=False,
                     name="%s-%d" % (cfg, seed), timeout=1500)
@@ -248,7 +248,7 @@ def run(ctx):
 
     # 2. a shortest history per mechanism (one breadth-first run; it stops once all have been seen)
     ce = {}
-    r = ctx.tlc("MC_LspIncr", "MC_LspIncr_ce", workers=1, name="ce", timeout=1500)
+    r = ctx.tlc("MC_LspIncr", "MC_LspIncr_ce3" if ctx.quick else "MC_LspIncr_ce", workers=1, name="ce", timeout=1500)
     if r.violated not in (None, "StopWhenAllSeen"):
         raise ToolError("unexpected result of the counterexample search: %s" % r.violated)
     for rep in r.printed("REPLAY"):
@@ -261,7 +261,7 @@ def run(ctx):
     hists = gen_histories(ctx)
     pool_size = len(hists)
     if ctx.quick:
-        hists = slice_for_seed(hists, ctx.seed, 120)
+        hists = slice_for_seed(hists, ctx.seed, 110)
     ces = list(ce.values())
     # the model's counterexamples that end in a failed / crashed compilation depend on slot re-use, which the model
     # leaves open: they are replayed, but only a confirmed disagreement is reported
